@@ -17,17 +17,22 @@ FILES = [
     "qucumber/callbacks/observable_evaluator.py",
 ]
 REQUIRED_THEOREMS = ["C18_first_stop", "C18_never_self", "C18_needs_history", "C18_variance_refused",
-                     "C18_unknown_criterion", "C18_deprecated_eq"]
+                     "C18_unknown_criterion", "C18_deprecated_eq", "C18_degenerate_no_stop", "C18_tolerance_infinite"]
 EXTRA_TRUSTED = [
     "C18: the monitored values are scripted functions of the epoch; float64 sub/div/abs/sqrt and `<` of Lean's Float are IEEE, "
     "as are Python's and numpy's, so decisions are compared exactly",
-    "C18: known finding F8 (relative criterion, Python-float reference 0.0 -> ZeroDivisionError) is part of the model and excluded "
-    "from C18_first_stop by the guard M_{t-p} != 0",
+    "C18: a quotient by zero / sqrt of a negative is the model's explicit extended value `none` (inf or nan in the code: below no "
+    "tolerance); the code reaches it through IEEE arithmetic (np.divide after the F8 fix) — agreement is checked at Float, incl. nan/inf "
+    "monitored values, which have no counterpart over the reals",
 ]
+# ZeroDivisionError out of fit for criterion='relative', Python-float (or int) values and a reference value exactly 0: the behaviour
+# BEFORE the F8 fix (np.divide in _relative_change). The property forbids it (C18_first_stop: the run does not raise;
+# C18_degenerate_no_stop); reported under this stable signature.
 SIG_F8 = "EarlyStopping/relative/pyfloat/ref==0"
 RULE = ("case = (criterion, evaluator class, patience 1..5, evaluator period 1..3, stopper period 1..3, list order, tolerance in "
-        "{0,1e-3,1,inf}, starting epoch, number of epochs, scripted value sequence [monotone | oscillating | constant | zeros | plateau] "
-        "with Python-float / numpy-float / mixed kinds, variances for the variance criterion, optional evaluator-only pre-run); "
+        "{0,1e-3,1,inf}, starting epoch, number of epochs, scripted value sequence [monotone | oscillating | constant | zeros | plateau | "
+        "nonfinite (nan, +-inf, huge)] with Python-float / numpy-float / mixed / Python-int / 0-dim-tensor kinds, variances for the variance "
+        "criterion (incl. 0, negative, nan, inf), optional evaluator-only pre-run); "
         "non-trivial iff at least one comparison took place (some checked epoch had more than `patience` evaluations); distinct by hash")
 
 
@@ -43,8 +48,12 @@ def make_seq(rng, family, n):
         c = rng.choice([2.5, -1.0, 1e-9])
         return [c] * n
     if family == "zeros":
-        base = [rng.choice([0.0, 0.0, 1.0, -0.5, 2.0]) for _ in range(n)]
+        base = [rng.choice([0.0, 0.0, 1.0, -0.5, 2.0, -0.0]) for _ in range(n)]
         return base
+    if family == "nonfinite":
+        # diverged training: nan / +-inf / huge values among ordinary ones
+        pool = [float("nan"), float("inf"), float("-inf"), 1e308, -1e308, 0.0, 1.0, 1.0, 2.5, 2.5]
+        return [rng.choice(pool) for _ in range(n)]
     # plateau: changes, then flat, then changes again
     out, v = [], 4.0
     for k in range(n):
@@ -55,56 +64,74 @@ def make_seq(rng, family, n):
 
 
 def make_kinds(rng, mode, n):
-    if mode == "py":
-        return ["py"] * n
-    if mode == "np":
-        return ["np"] * n
+    if mode in ("py", "np", "int", "t0"):
+        return [mode] * n
     return [rng.choice(["py", "np"]) for _ in range(n)]
 
 
 def as_kind(kind, x):
-    return float(x) if kind == "py" else np.float64(x)
+    """the Python object the scripted metric returns: float | numpy.float64 | int (integral finite values only) | 0-dim double tensor"""
+    if kind == "np":
+        return np.float64(x)
+    if kind == "t0":
+        return torch.tensor(float(x), dtype=torch.double)
+    if kind == "int" and math.isfinite(x) and float(x).is_integer() and abs(x) < 2 ** 53:
+        return int(x)
+    return float(x)
+
+
+def model_kind(kind):
+    """the model's two arithmetic kinds: Python scalars (float, int) vs array-library scalars (numpy.float64, 0-dim tensor)"""
+    return "py" if kind in ("py", "int") else "np"
 
 
 # ---------------------------------------------------------------- reference decision procedure (the documented rule)
+def spec_deviation(criterion, a, b, var):
+    """the documented deviation between reference a and current b, or None where it is undefined (zero reference /
+    non-positive or nan variance). Plain Python floats, explicit tests — no numpy."""
+    if criterion == "absolute":
+        return abs(a - b)
+    if criterion == "relative":
+        if a == 0:
+            return None
+        return abs(a - b) / abs(a)
+    if not var > 0:             # 0, negative, nan
+        return None
+    return abs(a - b) / math.sqrt(var)
+
+
 def reference(case):
-    """returns (stop_epoch | None, fired epochs, compared?, undefined?) by the documented rule:
-    at a checked epoch with evaluations M_0..M_t: stop iff t >= p and dev(M_{t-p}, M_t) < tol.
-    `undefined` is set when a relative deviation from a zero reference is needed before any stop."""
+    """returns (stop_epoch | None, fired epochs, compared?, degenerate epochs, f8_epoch) by the documented rule:
+    at a checked epoch with evaluations M_0..M_t: stop iff t >= p and dev(M_{t-p}, M_t) is defined and < tol.
+    `degenerate`: checked epochs (up to the stop) whose comparison was undefined — the stopper must neither stop nor raise there;
+    `f8_epoch`: the first of them with criterion relative and Python-scalar operands (where the code BEFORE the F8 fix raised)."""
     p, pe, ps, tol = case["patience"], case["pe"], case["ps"], case["tol"]
     hist = []
     for e, w in case["pre"]:
         if e % pe == 0:
             hist.append(w)
-    fired, compared, undefined = [], False, None
-    with np.errstate(all="ignore"):
-        for e, w in case["cands"]:
-            fired.append(e)
-            if case["eval_first"] and e % pe == 0:
-                hist.append(w)
-            if e % ps == 0:
-                t = len(hist) - 1
-                if t >= p:
-                    compared = True
-                    a = np.float64(case["vals"][hist[t - p]])
-                    b = np.float64(case["vals"][hist[t]])
-                    if case["criterion"] == "relative":
-                        if a == 0:
-                            both_py = case["kinds"][hist[t - p]] == "py" and case["kinds"][hist[t]] == "py"
-                            if both_py:
-                                return None, fired, compared, e     # undefined: the code raises here (F8)
-                            dev = np.float64("nan") if a == b else np.float64("inf")
-                        else:
-                            dev = np.abs(a - b) / np.abs(a)
-                    elif case["criterion"] == "absolute":
-                        dev = np.abs(a - b)
-                    else:
-                        dev = np.abs(a - b) / np.sqrt(np.float64(case["vars"][hist[t - p]]))
-                    if dev < tol:
-                        return e, fired, compared, None
-            if (not case["eval_first"]) and e % pe == 0:
-                hist.append(w)
-    return None, fired, compared, undefined
+    fired, compared, degenerate, f8_epoch = [], False, [], None
+    for e, w in case["cands"]:
+        fired.append(e)
+        if case["eval_first"] and e % pe == 0:
+            hist.append(w)
+        if e % ps == 0:
+            t = len(hist) - 1
+            if t >= p:
+                compared = True
+                a = float(case["vals"][hist[t - p]])
+                b = float(case["vals"][hist[t]])
+                dev = spec_deviation(case["criterion"], a, b, float(case["vars"][hist[t - p]]))
+                if dev is None:
+                    degenerate.append(e)
+                    if f8_epoch is None and case["criterion"] == "relative" and \
+                            model_kind(case["kinds"][hist[t - p]]) == "py" and model_kind(case["kinds"][hist[t]]) == "py":
+                        f8_epoch = e
+                elif dev < tol:
+                    return e, fired, compared, degenerate, f8_epoch
+        if (not case["eval_first"]) and e % pe == 0:
+            hist.append(w)
+    return None, fired, compared, degenerate, f8_epoch
 
 
 # ---------------------------------------------------------------- the real run
@@ -171,7 +198,7 @@ def run_impl(case):
         return {"error": type(e).__name__, "where": "constructor"}
     res["ctor"] = {"criterion": stopper.criterion, "patience": stopper.patience, "period": stopper.period}
     tail = Tail(rec)
-    with warnings.catch_warnings(), np.errstate(all="ignore"):
+    with warnings.catch_warnings():        # numpy's floating-point warnings are left at their defaults (a warning, not an error)
         warnings.simplefilter("ignore")
         try:
             if case["pre"]:
@@ -190,10 +217,10 @@ def run_impl(case):
 
 def model_args(case):
     args = dict(ps=case["ps"], tol=f2b(case["tol"]), ek=case["ek"], name=case["name"], pe=case["pe"], eval_first=case["eval_first"],
-                pre=case["pre"], cands=case["cands"], vals=[[k, f2b(x)] for k, x in zip(case["kinds"], case["vals"])],
+                pre=case["pre"], cands=case["cands"], vals=[[model_kind(k), f2b(x)] for k, x in zip(case["kinds"], case["vals"])],
                 deprecated=bool(case.get("deprecated")), criterion=case["criterion_str"])
     if case["ek"] == "observable":
-        args["vars"] = [[k, f2b(x)] for k, x in zip(case["vkinds"], case["vars"])]
+        args["vars"] = [[model_kind(k), f2b(x)] for k, x in zip(case["vkinds"], case["vars"])]
     pa = case["patience_arg"]
     if pa is None:
         args["patience"] = "none"
@@ -208,8 +235,10 @@ def model_args(case):
 
 def one_case(ctx, case, known_probe=False):
     impl = run_impl(case)
-    ref_stop, ref_fired, compared, undefined_at = reference(case) if case.get("valid", True) else (None, [], False, None)
+    ref_stop, ref_fired, compared, degenerate, f8_epoch = reference(case) if case.get("valid", True) else (None, [], False, [], None)
     sig0 = f"EarlyStopping/{case['criterion']}/{case['ek']}"
+    # the pre-F8-fix behaviour: ZeroDivisionError out of fit at a relative comparison of Python scalars with a zero reference
+    f8_raised = f8_epoch is not None and impl.get("error") == "ZeroDivisionError" and impl.get("where") == "fit"
     ctx.case(case, nontrivial=compared,
              sample={k: case[k] for k in ("criterion", "ek", "patience", "pe", "ps", "eval_first", "tol", "family", "kindmode")}
              | {"impl": {k: impl.get(k) for k in ("stop", "last_epoch", "fired", "error")}})
@@ -218,6 +247,10 @@ def one_case(ctx, case, known_probe=False):
     ctx.count("quantity_name=" + ("plain" if case["name"] == "Q" else "own-attribute/odd"))
     ctx.count("outcome=" + ("error:" + impl["error"] if "error" in impl else ("stop" if impl["stop"] else "no-stop")))
     ctx.count("compared" if compared else "never-compared")
+    if degenerate:
+        ctx.count("degenerate-comparison(" + case["criterion"] + ")")
+    if f8_epoch is not None:
+        ctx.count("degenerate-comparison(relative, Python scalars: F8 class)")
     if case["pre"]:
         ctx.count("with-pre-run")
 
@@ -226,8 +259,10 @@ def one_case(ctx, case, known_probe=False):
         m = ctx.driver.call("c18.fit", **model_args(case))
         th = "C18_first_stop"
         if "error" in m or "error" in impl:
-            ctx.point("exception", "property", impl.get("error"), m.get("error"), case, exact=True, sig=f"{sig0}/exception",
-                      theorem="model error cases (ZeroDivisionError = known finding F8; constructor table C18_variance_refused / C18_unknown_criterion)")
+            ctx.point("exception", "property", impl.get("error"), m.get("error"), case, exact=True,
+                      sig=SIG_F8 if f8_raised else f"{sig0}/exception",
+                      theorem="C18_first_stop / C18_degenerate_no_stop (a run with a tracked quantity never raises); constructor table "
+                              "C18_variance_refused / C18_unknown_criterion")
         else:
             mo = m["ok"]
             ctx.point("stop", "property", impl["stop"], mo["stop"], case, exact=True, sig=f"{sig0}/stop-flag", theorem=th)
@@ -239,27 +274,25 @@ def one_case(ctx, case, known_probe=False):
     # ---- oracle: the documented rule, evaluated independently
     if not case.get("valid", True):
         return
-    if undefined_at is not None:
-        # relative deviation from a Python-float zero reference: the known finding
-        raised = impl.get("error") == "ZeroDivisionError" and impl.get("where") == "fit"
-        if raised:
-            ctx.oracle("relative criterion with Python-float reference 0.0 raises ZeroDivisionError out of fit", False, case,
-                       detail={"impl": impl, "undefined_at_epoch": undefined_at}, sig=SIG_F8, theorem="C18_first_stop (guard M_{t-p} != 0)")
-        else:
-            if known_probe:
-                ctx.note("known finding F8 did not reproduce on its witness: " + repr({k: impl.get(k) for k in ("error", "stop", "last_epoch")}))
-            # whatever the repaired behaviour is, it must not have stopped BEFORE the undefined comparison
-            ok = "error" not in impl and (impl["last_epoch"] is None or impl["last_epoch"] >= undefined_at)
-            ctx.oracle("no stop before the first undefined comparison", ok, case, detail={"impl": impl}, sig=f"{sig0}/stop-before-undefined")
-        return
+    if known_probe and "error" in impl:
+        ctx.note("F8 witness: " + repr({k: impl.get(k) for k in ("error", "where")}))
     if "error" in impl:
-        ctx.oracle("fit raised although every comparison is defined", False, case, detail={"impl": impl}, sig=f"{sig0}/unexpected-exception",
-                   theorem="C18_first_stop")
+        if f8_raised:
+            ctx.oracle("relative criterion with a zero reference value must neither stop nor raise (ZeroDivisionError out of fit)", False, case,
+                       detail={"impl": impl, "degenerate_comparison_at_epoch": f8_epoch}, sig=SIG_F8,
+                       theorem="C18_degenerate_no_stop, C18_first_stop")
+        else:
+            ctx.oracle("fit raised although the monitored quantity is tracked", False, case, detail={"impl": impl},
+                       sig=f"{sig0}/unexpected-exception", theorem="C18_first_stop")
         return
     ok = (impl["last_epoch"] == ref_stop and impl["stop"] == (ref_stop is not None) and impl["fired"] == ref_fired)
     ctx.oracle("stops at the first checked epoch satisfying the documented rule, and at no earlier epoch", ok, case,
                detail={"impl": {k: impl[k] for k in ("stop", "last_epoch", "fired")}, "reference_stop_epoch": ref_stop, "reference_fired": ref_fired},
                sig=f"{sig0}/first-stop-oracle", theorem="C18_first_stop")
+    if degenerate:
+        ctx.oracle("no stop at a degenerate comparison (zero reference / non-positive variance), whatever the tolerance",
+                   impl["last_epoch"] not in degenerate, case, detail={"impl": impl, "degenerate_epochs": degenerate},
+                   sig=f"{sig0}/stop-at-degenerate-comparison", theorem="C18_degenerate_no_stop")
     if not compared:
         ctx.oracle("no stop before patience+1 evaluations exist", impl["last_epoch"] is None and not impl["stop"], case,
                    detail={"impl": impl}, sig=f"{sig0}/needs-history-oracle", theorem="C18_needs_history")
@@ -267,7 +300,8 @@ def one_case(ctx, case, known_probe=False):
 
 # ---------------------------------------------------------------- generation
 TOLS = [0.0, 1e-3, 1.0, float("inf")]
-FAMILIES = ["monotone", "oscillating", "constant", "zeros", "plateau"]
+FAMILIES = ["monotone", "oscillating", "constant", "zeros", "plateau", "nonfinite"]
+KINDMODES = ["py", "np", "mixed", "py", "np", "mixed", "int", "t0"]
 
 
 # the monitored quantity may have ANY name, in particular one the evaluator also uses for an attribute / property / method of
@@ -289,8 +323,10 @@ def mk_case(rng, criterion, p, pe, ps, eval_first, tol, family, kindmode, start=
     kinds = make_kinds(rng, kindmode, total)
     ek = "observable" if criterion == "variance" else rng.choice(["metric", "metric", "observable"])
     vars_ = [rng.choice([0.25, 1.0, 4.0, 1e-6, 100.0]) for _ in range(total)]
-    if criterion == "variance" and rng.random() < 0.15:
-        vars_[rng.randrange(total)] = rng.choice([0.0, -1.0])
+    if criterion == "variance" and rng.random() < 0.35:
+        # converged / single-sample observables: variance exactly 0, nan (num_samples=1), and impossible values
+        for _ in range(rng.choice([1, 1, 2, total])):
+            vars_[rng.randrange(total)] = rng.choice([0.0, 0.0, -1.0, float("nan"), float("inf")])
     vkinds = make_kinds(rng, kindmode, total)
     case = {"criterion": criterion, "criterion_str": rng.choice([criterion, criterion.upper(), "  " + criterion.capitalize() + "\n"]),
             "ek": ek, "patience": p, "patience_arg": rng.choice([p, p, p + 0.7]), "pe": pe, "ps": ps, "eval_first": eval_first, "tol": tol,
@@ -303,7 +339,7 @@ def mk_case(rng, criterion, p, pe, ps, eval_first, tol, family, kindmode, start=
 
 
 def f8_witness():
-    """the recorded known finding: relative, Python floats, reference value exactly 0.0"""
+    """F8 (repaired): relative, Python floats, reference value exactly 0.0 — no exception, no stop at epoch 2, stop at epoch 3"""
     n = 5
     return {"criterion": "relative", "criterion_str": "relative", "ek": "metric", "patience": 1, "patience_arg": 1, "pe": 1, "ps": 1,
             "eval_first": True, "tol": 0.01, "family": "zeros", "kindmode": "py", "name": "Q", "pre": [],
@@ -321,16 +357,25 @@ def gen_cases(ctx, thorough):
     for i, (c, p, pe, ps, ef, tol) in enumerate(combos):
         fams = FAMILIES if thorough and i % 4 == 0 else [rng.choice(FAMILIES)]
         for fam in fams:
-            km = rng.choice(["py", "np", "mixed"])
+            km = rng.choice(KINDMODES)
             start = rng.choice([1, 1, 1, 0, 2, 5])
             pre_len = rng.choice([0, 0, 0, 2, 4])
             dep = (c == "variance" and rng.random() < 0.3)
             yield mk_case(rng, c, p, pe, ps, ef, tol, fam, km, start=start, pre_len=pre_len, deprecated=dep)
-    # numpy-float twin of the known finding: inf, no exception, no stop at that comparison
-    w = f8_witness()
-    w["kinds"] = ["np"] * 5
-    w["kindmode"] = "np"
-    yield w
+    # twins of the F8 witness in the other kinds (numpy: inf, no exception, no stop at that comparison), both list orders, tol = inf
+    for km in ("np", "int", "t0", "py"):
+        for ef in (True, False):
+            for tol in (0.01, float("inf")):
+                w = f8_witness()
+                w.update(kinds=[km] * 5, kindmode=km, eval_first=ef, tol=tol)
+                yield w
+    # variance criterion: variance exactly 0 / negative / nan at the reference, Python and numpy kinds, tol = inf
+    for v0 in (0.0, -1.0, float("nan")):
+        for km in ("py", "np"):
+            w = f8_witness()
+            w.update(criterion="variance", criterion_str="variance", ek="observable", vals=[1.0, 1.0, 1.0, 1.0, 1.0],
+                     vars=[v0, v0, 1.0, 1.0, 1.0], kinds=[km] * 5, vkinds=[km] * 5, kindmode=km, tol=float("inf"), family="constant")
+            yield w
 
 
 def ctor_cases(rng):
@@ -400,7 +445,7 @@ def deprecated_twin(ctx, case):
 
 def run(ctx):
     ctx.rule = RULE
-    # the known finding's witness, on every run
+    # the F8 witness, on every run
     one_case(ctx, f8_witness(), known_probe=True)
     if ctx.driver is not None:
         words = ["  VaRiance\n", "relative", "\tABSOLUTE ", "x y", "", "\x0bvariance\x1c"]
